@@ -26,6 +26,24 @@ def judge(case, res):
                 fails.append('position %d at output index %d (%r) is outside 1..%d' % (x, i, t[max(0, i - 8):i + 8], n))
     return fails
 
+def ml_end_cases(rng, n):
+    """multi-language documents that END with (or right behind) a short inclusion in another language: the placeholder
+    of the inclusion is the last thing in the main part, its characters must still lie inside the source"""
+    out = []
+    incls = ['\\foreignlanguage{german}{%s}', '\\foreignlanguage{french}{%s}', '\\begin{otherlanguage*}{german}%s\\end{otherlanguage*}',
+             '{\\selectlanguage{german}%s}', '\\foreignlanguage{german}{%s', '\\foreignlanguage{russian}{%s}']
+    words = ['ja', 'x', 'Wort', 'ein Wort', 'a b c', 'a b c d e', '\u00df', '$x$', 'so.']
+    tails = ['', '\n', ' ', '.', ' z', '\n\n', '}', '%']
+    for inc in incls:
+        for w in words:
+            for tl in tails:
+                for pre in ['Some text ', '', 'A\n\n']:
+                    for th in (0, 2, 3, 5):
+                        out.append({'src': pre + (inc % w) + tl, 'opts': {'pack': 'babel', 'lang': 'en'}, 'multi': True,
+                                    'thresh': th, 'kind': 'mlend', 'words': None})
+    rng.shuffle(out)
+    return out[:n]
+
 def classify(case):
     """known-finding classes, decided from the input alone"""
     return None
@@ -33,11 +51,12 @@ def classify(case):
 def run(ctx):
     n = ctx.scale(700, 20000)
     cases = t2t.doc_cases(ctx, n)
+    cases += ml_end_cases(ctx.rng, ctx.scale(900, 6000))
     for c in cases:
         c['cap_lines'] = 3
     ctx.stats['_rule'] = ('G-doc AST documents over the construct catalogue, G-edge prefixes ending at a construct, '
                           'G-mut prefixes/deletions/swaps, G-soup token soup; random options incl. defs files, \\LTinput files, '
-                          'multi-language; non-trivial = produces non-empty output')
+                          'multi-language; documents ending with a short foreign-language inclusion; non-trivial = produces non-empty output')
     results = ctx.pmap(t2t.run_case, cases)
     for c, r in zip(cases, results):
         nontriv = r['outcome'] == 'ok' and any(t for _, t, _ in t2t.all_parts(r, c))
